@@ -4,6 +4,11 @@ HERE = os.path.dirname(os.path.dirname(os.path.abspath(__file__)))
 BASE = json.load(open("/root/.vp/BASELINE.json"))["cmd"]
 
 CHECKS = {
+ "C03": dict(
+   technique="bounded exhaustive enumeration of stored-row tuples x arm assignments x compositions x metric x radius/k x policy x grid queries against an integer-arithmetic neighbourhood oracle (reference policy re-trained on the oracle's rows)",
+   text="Every tuple of up to n grid points as stored contexts, with arm assignments, compositions into fit + partial_fit*, four metrics, radii on exact distance values (boundary included, sqrt(2) for euclidean), every k, and every grid point as query (batch and single row) is executed; expectations must equal the library's learning policy trained from scratch on exactly the oracle's neighbourhood (any admissible KNearest tie-break), empty neighbourhoods give NaN and the replicated empty-neighbourhood draw.",
+   note="grids {0..3}, {0,1,2}x{0,1}, a metric-order-sensitive 5-point grid (quick); 3x3 grid and n<=4 (thorough); scipy cdist not trusted (oracle uses integers), the learning policy is (C01/C02 judge it)",
+   ref="DESIGN.md section 7 (C03)"),
  "C02": dict(
    technique="bounded exhaustive enumeration of training histories (row sequences x compositions into fit+partial_fit x arm additions x query batch sizes) against an exact-rational ridge-regression reference executed in lock-step",
    text="For every policy setting, lambda, scale flag and feature count 1..3, every row sequence up to the length bound over the row alphabet, every composition into fit + partial_fit*, three arm-addition variants and query batches of 1..3 rows are executed on the implementation and compared with Gaussian elimination over fractions. Exhaustive within the alphabet.",
